@@ -740,7 +740,13 @@ func main() {
 		}
 		// translator validation: replay one reached witness natively and compare observations
 		if !*flagNoReplay {
-			labels := sortedKeys(hr.ReachModel)
+			var labels []string
+			for _, lab := range sortedKeys(hr.ReachModel) {
+				// "sym:" witnesses only exist under the symbolic executor (loop-step observations)
+				if !strings.HasPrefix(lab, "sym:") {
+					labels = append(labels, lab)
+				}
+			}
 			limit := 1
 			if *flagTier == "thorough" {
 				limit = 3
